@@ -1,6 +1,6 @@
 (* C02 — SimpleDMRS serialisation is lossless (token level). *)
 From Coq Require Import List NArith ZArith Bool.
-From PyD Require Import Base.Str Base.Dec Model.Mrs Model.Iso Model.SimpleMrs Model.SimpleDmrs Proofs.SimpleMrsP Proofs.SimpleDmrsP.
+From PyD Require Import Base.Str Base.Dec Model.Mrs Model.Iso Model.SimpleMrs Model.SimpleDmrs Proofs.SimpleMrsP Proofs.SimpleDmrsP Model.MrsJson Model.DmrsJson Proofs.DmrsJsonP.
 Import ListNotations.
 
 (* escaping of constants and of the surface string is inverted by the decoder *)
@@ -44,3 +44,12 @@ Print Assumptions C02_hypotheses_satisfiable.
 Theorem C02_reencode_stable : forall p l g, enc_dmrs p l (proj_dmrs p l g) = enc_dmrs p l g.
 Proof. exact enc_dmrs_stable. Qed.
 Print Assumptions C02_reencode_stable.
+
+(* DMRS-JSON at the level of the JSON value: reading back the dictionary
+   that to_dict writes gives the same graph; the node type travels inside
+   sortinfo, so suppressing properties removes the type with them *)
+Theorem C02_json_from_to_dict : forall p l g,
+  Forall (fun n => no_cvarsort (n_props n)) (g_nodes g) -> Forall link_ok (g_links g) ->
+  d_from_dict (d_to_dict p l g) = Some (proj_jdmrs p l g).
+Proof. exact d_from_to_dict. Qed.
+Print Assumptions C02_json_from_to_dict.
